@@ -493,13 +493,27 @@ Lemma cmp_loop_defined strict c1 : forall c2,
   Forall nometa c1 ->
   (exists c, cmp_loop strict c1 c2 = Ok c) \/ (strict = true /\ cmp_loop strict c1 c2 = Err Unsortable).
 Proof.
-  induction c1 as [|x r1 IH]; intros [|y r2] H1; cbn [cmp_loop]; eauto.
+  induction c1 as [|x r1 IH]; intros [|y r2] H1; cbn [cmp_loop]; try (left; eexists; reflexivity).
   inversion H1 as [|? ? Hx Hr1]; subst.
   assert (E : exists r, cmp_component x y = Ok r) by (rewrite (cmp_component_alt x y Hx); eauto).
   destruct E as [[i d] ->].
-  destruct d; [now apply IH| |];
-    (destruct strict; [|simpl; eauto]; destruct i; simpl; eauto;
-     destruct (is_nil r1 || is_nil r2); eauto; destruct (starts_with x y); eauto; destruct (starts_with y x); eauto).
+  assert (D : forall d', (exists c : comparison,
+     (if strict && negb i
+      then if is_nil r1 || is_nil r2
+           then if starts_with x y then Ok Lt else if starts_with y x then Ok Gt else Err Unsortable
+           else Err Unsortable
+      else Ok d') = Ok c) \/
+     strict = true /\
+     (if strict && negb i
+      then if is_nil r1 || is_nil r2
+           then if starts_with x y then Ok Lt else if starts_with y x then Ok Gt else Err Unsortable
+           else Err Unsortable
+      else Ok d') = Err Unsortable).
+  { intro d'. destruct strict; [|left; eexists; reflexivity]. destruct i; [left; eexists; reflexivity|].
+    cbn [andb negb]. destruct (is_nil r1 || is_nil r2); [|right; split; reflexivity].
+    destruct (starts_with x y); [left; eexists; reflexivity|].
+    destruct (starts_with y x); [left; eexists; reflexivity|right; split; reflexivity]. }
+  destruct d; [now apply IH|apply D|apply D].
 Qed.
 
 Lemma sec_ter_defined (rec : str -> str -> res comparison) s1 t1 s2 t2 :
